@@ -18,7 +18,7 @@ import (
 )
 
 const (
-	tmoLong   = 400 * time.Millisecond // ConnectTimeout / ResubscribeTimeout: acks are prompt (<< this) or never
+	tmoLong   = 1500 * time.Millisecond // ConnectTimeout / ResubscribeTimeout: acks are prompt (<< this) or never
 	waitBound = 8 * time.Second        // liveness watchdog of a scenario step
 )
 
@@ -85,6 +85,8 @@ type scn struct {
 	attempt  int
 	conns    []*memConn
 	leaks    []string
+	curPlan  connPlan
+	envSlow  bool // a timeout expired although the peer of that attempt answers promptly: the machine was too slow
 	discSent bool
 
 	svc    *client.Service
@@ -303,9 +305,13 @@ func (s *scn) logger(msg string) {
 	case msg == "Next Reconnect":
 		s.ev("next")
 	case strings.HasPrefix(msg, "Connect Error: "):
-		s.ev("connfail %s", classifyFutErr(msg[len("Connect Error: "):]))
+		r := classifyFutErr(msg[len("Connect Error: "):])
+		s.noteTimeout(r)
+		s.ev("connfail %s", r)
 	case strings.HasPrefix(msg, "Resubscribe Error: "):
-		s.ev("resubfail %s", classifyFutErr(msg[len("Resubscribe Error: "):]))
+		r := classifyFutErr(msg[len("Resubscribe Error: "):])
+		s.noteTimeout(r)
+		s.ev("resubfail %s", r)
 	case strings.HasPrefix(msg, "Subscribe Error: "):
 		s.ev("disperr sub")
 	case strings.HasPrefix(msg, "Unsubscribe Error: "):
@@ -322,6 +328,19 @@ func (s *scn) logger(msg string) {
 	case strings.HasPrefix(msg, "Callback Error: "):
 		s.ev("kill")
 	}
+}
+
+// the liveness expectations of a script assume that the scripted peers meet their obligation (prompt answers);
+// a timeout on an attempt whose peer is fault free means the machine did not let them
+func (s *scn) noteTimeout(r string) {
+	if r != "timeout" {
+		return
+	}
+	s.mu.Lock()
+	if s.curPlan.faultFree() {
+		s.envSlow = true
+	}
+	s.mu.Unlock()
 }
 
 func (s *scn) setup() {
